@@ -1386,6 +1386,17 @@ func (fx *Fx) havocAll(st *State) {
 		}
 		lo.Zero = false
 	}
+	// ghost state of library contracts: unknown code may call the functions that own it
+	for g, old := range st.Ghost {
+		nv := Sym(freshName("ghost!hv!"+g), old.S)
+		if fx.P.GhostMono[g] && old.S.K == SBV {
+			fx.assume(st, BVOp("bvuge", nv, old))
+			if old.S.W == 64 {
+				fx.assume(st, BVOp("bvult", nv, BVConst(1<<62, 64)))
+			}
+		}
+		st.Ghost[g] = nv
+	}
 }
 
 // impliedByAssumption: every conjunct of the goal is literally an earlier assumption whose guard is part of
